@@ -1,6 +1,7 @@
 mod alloc;
 mod codec;
 mod engine;
+mod ep;
 mod fq;
 mod hs;
 mod refcodec;
@@ -154,6 +155,16 @@ fn cmd_c04(args: &[String]) {
     println!("{}", serde_json::json!({"cells": cells.len(), "events": evs.len()}));
 }
 
+fn cmd_c19(args: &[String]) {
+    let inp = arg(args, "--in").expect("--in");
+    let out = arg(args, "--out").expect("--out");
+    let vectors = read_ndjson(&inp);
+    engine::install_panic_hook();
+    let evs = ep::c19(&vectors);
+    write_ndjson(&out, &evs);
+    println!("{}", serde_json::json!({"vectors": vectors.len(), "ok": evs.iter().filter(|e| e["res"] == "ok").count()}));
+}
+
 fn main() {
     let args: Vec<String> = std::env::args().collect();
     match args.get(1).map(|s| s.as_str()) {
@@ -163,6 +174,7 @@ fn main() {
         Some("c02") => cmd_c02(&args),
         Some("c03") => cmd_c03(&args),
         Some("c04") => cmd_c04(&args),
+        Some("c19") => cmd_c19(&args),
         _ => {
             eprintln!("usage: zv run --in scripts.ndjson --out trace.ndjson");
             std::process::exit(2);
